@@ -322,3 +322,89 @@ def shape_errors(val, sit, took_then):
         return ["%s: result children %r do not put the sub-cube on the %s branch and false on the other"
                 % (sit, ch, "then" if took_then else "else")]
     return []
+
+
+# ---- ZBDD -----------------------------------------------------------------------------------------------------------
+ZT = "oxidd_rules_zbdd::ZBDDTerminal::"
+
+
+class ZPickDomain(PickDomain):
+    def __init__(self, F, fid):
+        super().__init__(F, fid)
+        self.kind = tables.ZBDD
+
+
+def run_zbdd(ctx, F, rule="E-TABLE.pick"):
+    """ZBDD pick_cube_edge::inner / pick_cube_dd_edge::inner, one step on node(level 3; hi, lo):
+    hi == lo (don't care): no choice, entry None / node (sub, sub); lo == Empty (forced): no choice, true;
+    otherwise the choice decides once; the cube entry written is level_to_var(level); the dd variant returns the
+    sub-cube itself on the lo branch (zero-suppressed) and node(level; sub, Empty) on the hi branch."""
+    base = "oxidd_rules_zbdd::apply_rec::"
+    EMPTY, BASE = Edge(("T", Enum(ZT + "Empty"))), Edge(("T", Enum(ZT + "Base")))
+
+    def inner(name, level, children):
+        return Edge(("S", SNode(name, level, children)))
+    A = inner("a", 6, (BASE, EMPTY))
+    Bn = inner("b", 7, (BASE, BASE))
+    sits = [(A, EMPTY), (A, A), (A, Bn), (BASE, Bn), (A, BASE), (BASE, EMPTY), (BASE, BASE)]
+    n = 0
+    for which, suffix in (("cube", "::pick_cube_edge::inner"), ("dd", "::pick_cube_dd_edge::inner")):
+        fids = [f for f in F.hir if f.startswith(base) and f.endswith(suffix)]
+        if not ctx.anchor(rule, "zbdd " + suffix[2:], len(fids) == 1):
+            continue
+        fid = fids[0]
+        fails = []
+        for hi, lo in sits:
+            N = inner("n", 3, (hi, lo))
+            holder = {}
+
+            def mk(oracle):
+                holder["d"] = ZPickDomain(F, fid)
+                return Interp(F, holder["d"], oracle)
+            args = [Opaque("manager"), N] + ([Opaque("cube")] if which == "cube" else []) + [("closure-param",)]
+            for trace, (status, val) in enumerate_runs(mk, lambda it: it.call_fn(fid, list(args))):
+                n += 1
+                d = holder["d"]
+                sit = "zbdd node(hi=%r, lo=%r)%s" % (hi, lo, " " + str(trace) if trace else "")
+                if status != "ok":
+                    fails.append("%s: %s %s" % (sit, status, val))
+                    continue
+                dontcare = hi == lo
+                forced = lo == EMPTY
+                if (dontcare or forced) and d.choice_calls:
+                    fails.append("%s: the choice function is consulted although the branch is %s" %
+                                 (sit, "irrelevant (don't care)" if dontcare else "forced"))
+                if not (dontcare or forced) and d.choice_calls != 1:
+                    fails.append("%s: the choice function is consulted %d times (expected once)" % (sit, d.choice_calls))
+                c = dict(trace).get("choice")
+                took_hi = True if (dontcare or forced) else (c == 1)
+                want = hi if took_hi else lo
+                took = d.rec[0][0] if d.rec and d.rec[0] else None
+                if took != want:
+                    fails.append("%s: descends into %r, expected %r" % (sit, took, want))
+                if which == "cube":
+                    if len(d.writes) != 1:
+                        fails.append("%s: %d entries of the cube are written (expected one)" % (sit, len(d.writes)))
+                        continue
+                    idx, valw = d.writes[0]
+                    if idx != ("varof", 3):
+                        fails.append("%s: the cube entry written is %r, expected the variable of the node's level" % (sit, idx))
+                    wantv = Enum("oxidd_core::util::OptBool::None") if dontcare else ("optbool", took_hi)
+                    if valw != wantv and not (dontcare and isinstance(valw, Enum) and valw.short == "None"):
+                        fails.append("%s: the cube records %r, expected %r" % (sit, valw, wantv))
+                else:
+                    v = val.args[0] if isinstance(val, Enum) and val.path == OK else val
+                    if not took_hi:
+                        if not (isinstance(v, Edge) and v.node[0] == "REC"):
+                            fails.append("%s: on the lo branch the result is %r, expected the sub-cube itself (the variable "
+                                         "is zero-suppressed)" % (sit, v))
+                    else:
+                        okn = isinstance(v, Edge) and v.node[0] == "NEW" and v.node[1] == 3 and v.node[2] == 3 \
+                            and v.node[3][0].node[0] == "REC" and \
+                            (v.node[3][1].node[0] == "REC" if dontcare else v.node[3][1] == EMPTY)
+                        if not okn:
+                            fails.append("%s: result %r, expected node(level 3; sub, %s)" % (sit, v, "sub" if dontcare else "Empty"))
+        ctx.ob(rule, "%s:zbdd:%s" % (rule, suffix[2:].replace("::inner", "")), not fails,
+               "zbdd %s (%s): %s" % (suffix[2:], F.where(fid), "%d situation(s) wrong; first: %s" % (len(fails), " || ".join(fails[:3]))
+                                     if fails else "ok"))
+    return n
